@@ -169,9 +169,12 @@ def dropDb (st : St) (name : Name) (ms : Nat) : St × Except Err Unit :=
     | .ok fs' => ({ fs := fs', live := live' }, .ok ())
     | .error e => ({ fs := st.fs, live := live' }, .error e)
 
-/-- `hasCaseInsensitiveMatch`: the first candidate (in `Iter` order) equal under case folding -/
+/-- `hasCaseInsensitiveMatch`: the candidate called exactly `name` if there is one, otherwise the
+first candidate (in `Iter` order) equal under case folding -/
 def firstFoldMatch (cands : List Name) (name : Name) : Option Name :=
-  cands.find? (fun s => eqFold name s)
+  match cands.find? (fun s => s == name) with
+  | some s => some s
+  | none => cands.find? (fun s => eqFold name s)
 
 /-- `validateUndropDatabase` (+ the `MkDirs` of `ListDroppedDatabases`): source, destination, exact name -/
 def validateUndrop (fs : FS) (name : Name) : Except Err (FS × Path × Path × Name) :=
